@@ -7,6 +7,9 @@ from .type_checker import is_integer
 
 
 def combine_Address(a1: Address, a2: Address) -> Address:
+    duplicated = [name for name in a2.object_list if name in a1.object_list]
+    if duplicated:
+        raise KeyError(f"Variable {duplicated[0]} already exists!")
     a = Address()
     a.length_array = np.concatenate([a1.length_array, a2.length_array])
     a.object_list = a1.object_list + a2.object_list
